@@ -60,7 +60,7 @@ def gen_trees(tier, rng, plens, quick_n, thorough_n, need_nonempty=True):
             out.append(("D2", p, P))
     # larger piece counts (powers of two and not, halving sequences with even and odd levels)
     P0 = plens[0]
-    top = 70 if tier == "thorough" else 40
+    top = 140 if tier == "thorough" else 40
     for npc in range(6, top + 1):
         deltas = (-1, 0, 1, B + 1) if tier == "thorough" else (rng.choice((-1, 0, 1, B + 1)),)
         for dl in deltas:
@@ -145,6 +145,8 @@ class C01(CreateProp):
         return [
             {"module": "HasherV1.tla", "cfg": "MC_HasherV1.cfg", "coverage": False,
              "what": "Hasher.__next__/_handle_partial/next_file, all size vectors <=3 files x 0..9, P in {2,4}"},
+            {"module": "HasherV1.tla", "cfg": "MC_HasherV1_4files.cfg", "tier": "thorough",
+             "what": "4 files, sizes 0..6"},
             {"module": "HasherV1.tla", "cfg": "MC_HasherV1_m_droplast.cfg", "expect": "fail",
              "what": "mutant: trailing partial piece dropped"},
             {"module": "HasherV1.tla", "cfg": "MC_HasherV1_m_nocarry.cfg", "expect": "fail",
@@ -154,7 +156,7 @@ class C01(CreateProp):
     def cases(self, tier, rng):
         cl = ["C01.list", "C01.pieces", "C01.plen", "C01.name", "M01.impl"]
         out = []
-        for n, (sh, sizes, P) in enumerate(gen_trees(tier, rng, plens(tier), 260, 4000)):
+        for n, (sh, sizes, P) in enumerate(gen_trees(tier, rng, plens(tier), 260, 12000)):
             creator = "TorrentFile" if n % 4 else "cli"
             out.append({"creator": creator, "version": 1, "P": P, "tree": mk_tree(sh, sizes), "clauses": cl,
                         "progress": (0, 0, 1, 2)[n % 4] if n % 5 == 0 else 0})
@@ -181,7 +183,7 @@ class C15(CreateProp):
     def cases(self, tier, rng):
         cl = ["C15.list", "C15.boundary", "C15.gap", "C15.pieces", "C15.count", "C15.single"]
         out = []
-        for n, (sh, sizes, P) in enumerate(gen_trees(tier, rng, plens(tier), 260, 4000)):
+        for n, (sh, sizes, P) in enumerate(gen_trees(tier, rng, plens(tier), 260, 12000)):
             creator = "TorrentFile" if n % 4 else "cli"
             out.append({"creator": creator, "version": 1, "align": True, "P": P,
                         "tree": mk_tree(sh, sizes), "clauses": cl})
@@ -211,7 +213,7 @@ class C02(CreateProp):
         out = []
         combos = [("TorrentAssembler", 2), ("TorrentAssembler", 3), ("TorrentFileV2", 2),
                   ("TorrentFileHybrid", 3), ("cli", 2), ("cli", 3)]
-        for n, (sh, sizes, P) in enumerate(gen_trees(tier, rng, plens(tier), 200, 3000)):
+        for n, (sh, sizes, P) in enumerate(gen_trees(tier, rng, plens(tier), 200, 10000)):
             creator, v = combos[n % len(combos)]
             out.append({"creator": creator, "version": v, "P": P, "tree": mk_tree(sh, sizes), "clauses": cl,
                         "progress": (1, 2)[n % 2] if n % 7 == 0 else 0})
@@ -234,7 +236,7 @@ class C03(CreateProp):
         cl = ["C03.order", "C03.boundary", "C03.padattr", "C03.pieces", "C03.single"]
         out = []
         combos = [("TorrentAssembler", 3), ("TorrentFileHybrid", 3), ("cli", 3)]
-        for n, (sh, sizes, P) in enumerate(gen_trees(tier, rng, plens(tier), 200, 3000)):
+        for n, (sh, sizes, P) in enumerate(gen_trees(tier, rng, plens(tier), 200, 10000)):
             creator, v = combos[n % len(combos)]
             out.append({"creator": creator, "version": v, "P": P, "tree": mk_tree(sh, sizes), "clauses": cl,
                         "progress": (1, 2)[n % 2] if n % 7 == 0 else 0})
@@ -258,7 +260,7 @@ class C10(CreateProp):
     def cases(self, tier, rng):
         out = []
         g = 0
-        for sh, sizes, P in gen_trees(tier, rng, plens(tier), 120, 2000):
+        for sh, sizes, P in gen_trees(tier, rng, plens(tier), 120, 5000):
             for v, pair in ((2, ("TorrentAssembler", "TorrentFileV2")), (3, ("TorrentAssembler", "TorrentFileHybrid"))):
                 g += 1
                 for cr in pair:
@@ -308,7 +310,7 @@ class C08(CreateProp):
 
     def cases(self, tier, rng):
         out = []
-        nbase = 120 if tier == "thorough" else 26
+        nbase = 400 if tier == "thorough" else 26
         g = 0
         creators = {1: ["TorrentFile", "cli"], 2: ["TorrentAssembler", "TorrentFileV2", "cli"],
                     3: ["TorrentAssembler", "TorrentFileHybrid", "cli"]}
